@@ -56,11 +56,12 @@ theorem C13_warn_never_raises (env : Env) (conf : Conf) (k : Klass) (m : Member)
 
 /-- **… a member whose decoration raises is left as it was, with exactly one warning.** For a
     function, classmethod, staticmethod or property decorated by hand (`beartype(conf=…)(member)`)
-    or as a member of a class: when `beartype_nontype` raises on it (`failsLeaf`: a function inside
-    has a hint rejected at decoration time — for a classmethod / staticmethod the wrappee is
-    guarded on its own, so the descriptor is rebuilt around the untouched function), the result is
-    the very same object, nothing is allocated, one warning is issued. Without the warning option
-    the exception propagates, and again nothing was changed. -/
+    or as a member of a class: when `beartype_nontype` raises on it (`failsLeaf`: a function with a
+    hint rejected at decoration time that nothing guards — the wrappee of a classmethod /
+    staticmethod and the accessors of a property are guarded on their own, see
+    `C13_descriptor_functions_independent`), the result is the very same object, nothing is
+    allocated, one warning is issued. Without the warning option the exception propagates, and
+    again nothing was changed. -/
 theorem C13_failing_member_left_alone (env : Env) (conf : Conf) (m : Member) (st : St)
     (h : m.failsLeaf env conf = true) :
     (conf.warn = true → decorObject env conf m st = ⟨m, ⟨st.next, st.warns + 1⟩, false⟩) ∧
@@ -72,9 +73,37 @@ theorem C13_failing_member_left_alone (env : Env) (conf : Conf) (m : Member) (st
   · intro hw; exact decorLeafObj_of_fails_warn env conf m st hw h
   · intro hw; simp [decorLeafObj, decorLeaf_of_fails env conf m st h, guard, hw]
 
+/-- **… inside a descriptor, only the function that cannot be decorated is left as it was.** Under
+    the warning option the wrappee of a classmethod / staticmethod and each accessor of a property
+    is decorated on its own under the guard: a function that cannot be decorated comes back as the
+    very same object with one warning (nothing allocated), every other accessor is decorated
+    exactly as by hand (`beartype_func`), and the descriptor is always rebuilt around the results —
+    a property is NOT all-or-nothing. -/
+theorem C13_descriptor_functions_independent (env : Env) (conf : Conf) (o : Nat) (doc : String)
+    (f g : Func) (s d : Option Func) (st : St) (hw : conf.warn = true) :
+    (f.fails env conf = true → decorFuncObj env conf f st = ⟨f, ⟨st.next, st.warns + 1⟩, false⟩) ∧
+    (f.fails env conf = false → decorFuncObj env conf f st = decorFunc env conf f st) ∧
+    decorObject env conf (.cmeth o f) st =
+      ⟨.cmeth (decorFuncObj env conf f st).st.next (decorFuncObj env conf f st).val,
+       ⟨(decorFuncObj env conf f st).st.next + 1, (decorFuncObj env conf f st).st.warns⟩, false⟩ ∧
+    decorObject env conf (.prop o doc g s d) st =
+      (let rg := decorFuncObj env conf g st
+       let rs := decorFuncObjOpt env conf s rg.st
+       let rd := decorFuncObjOpt env conf d rs.st
+       ⟨.prop rd.st.next doc rg.val rs.val rd.val, ⟨rd.st.next + 1, rd.st.warns⟩, false⟩) := by
+  refine ⟨fun h => decorFuncObj_st_fails env conf f st hw h, fun h => decorFuncObj_not_fails env conf f st h, ?_, ?_⟩
+  · have hf : (Member.cmeth o f).failsLeaf env conf = false := by simp [Member.failsLeaf, hw]
+    have hr : (decorFuncObj env conf f st).raised = false := by rw [decorFuncObj_raised]; simp [hw]
+    simp only [decorObject]
+    rw [decorLeafObj_of_not_fails env conf _ st hf]
+    simp [decorLeaf, hr]
+  · have hf : (Member.prop o doc g s d).failsLeaf env conf = false := by simp [Member.failsLeaf, hw]
+    simp only [decorObject]
+    rw [decorLeafObj_of_not_fails env conf _ st hf, decorLeaf_of_not_fails_prop env conf o doc g s d st hf]
+
 /-- **… and every other member is decorated exactly as if the failing one were absent.** Under the
-    warning option, for a class dictionary `pre ++ [(nm, m)] ++ rest` whose member `m` cannot be
-    decorated: the members before it and the members after it are decorated to exactly the values
+    warning option, for a class dictionary `pre ++ [(nm, m)] ++ rest` whose member `m` (a plain
+    function; a descriptor is rebuilt, see above) cannot be decorated: the members before it and the members after it are decorated to exactly the values
     (the very same wrappers and rebuilt descriptors, oid for oid) that the dictionary
     `pre ++ rest` without `m` gives; `m` itself stays; the only other difference is one more warning. -/
 theorem C13_failing_member_as_if_absent (env : Env) (conf : Conf) (qual : List String)
@@ -401,7 +430,7 @@ example : ((decorFunc envN cDef (fn 1 "f" .checked) st100).val.oid,
 class B:
     def a(self, x: int): …
     @classmethod      def cb(cls, x: NoReturn): …          # wrappee guarded on its own
-    @property         def pb(self) -> int: … ; @pb.setter def pb(self, v: NoReturn): …   # all-or-nothing
+    @property         def pb(self) -> int: … ; @pb.setter def pb(self, v: NoReturn): …   # accessors guarded one by one
     def bad(self, x: NoReturn): …
     class M:
         def g(self, x: int): … ; def mb(self, x: NoReturn): … ; def h(self, x: int): …
@@ -423,11 +452,11 @@ def exB : Klass := .mk 40 ["B"] false
 example : exB.wf := by
   simp [Klass.wf, Members.wf, Member.wf, exB, exM, Members.names]
 
-/-- under the warning option: four warnings (cb, pb, bad, M.mb; none for the classes), every
-    decorable member wrapped — also those AFTER a failing one —, the getter of the half-bad property
-    NOT wrapped (all-or-nothing), both classes marked, nothing propagates -/
+/-- under the warning option: four warnings (cb, the setter of pb, bad, M.mb; none for the classes),
+    every decorable function wrapped — also those AFTER a failing one, and the getter of the
+    half-bad property —, both classes marked, nothing propagates -/
 example : markersOf (decorClass envN cWarn exB st100).val.dict =
-    [("a", true), ("cb", false), ("pb", false), ("pb.setter", false), ("bad", false),
+    [("a", true), ("cb", false), ("pb", true), ("pb.setter", false), ("bad", false),
      ("M", true), ("g", true), ("mb", false), ("h", true), ("z", true)] ∧
     (decorClass envN cWarn exB st100).st.warns = 4 ∧ (decorClass envN cWarn exB st100).raised = false ∧
     (decorClass envN cWarn exB st100).val.beartyped = true := by decide
@@ -450,7 +479,9 @@ example :
 
 /-- hypotheses of `C13_failing_member_left_alone` / `C13_failing_member_as_if_absent` are satisfiable -/
 example : (Member.func (fn 47 "bad" .failing)).failsLeaf envN cWarn = true ∧
-    (Member.prop 44 "pdoc" (fn 45 "pb" .checked) (some (fn 46 "pb" .failing)) none).failsLeaf envN cWarn = true ∧
+    (Member.prop 44 "pdoc" (fn 45 "pb" .checked) (some (fn 46 "pb" .failing)) none).failsLeaf envN cWarn = false ∧
+    (Member.prop 44 "pdoc" (fn 45 "pb" .checked) (some (fn 46 "pb" .failing)) none).failsLeaf envN cDef = true ∧
+    (fn 46 "pb" .failing).fails envN cWarn = true ∧
     (Member.cmeth 42 (fn 43 "cb" .failing)).failsLeaf envN cWarn = false ∧
     (Member.cmeth 42 (fn 43 "cb" .failing)).failsLeaf envN cDef = true := by decide
 end Examples
